@@ -63,8 +63,8 @@ class CounterRepr(Representation, RepresentationWithMutation, RepresentationWith
 class FF:
     """Fitness function backed by a table; appends every invocation to a file (survives workers)."""
 
-    def __init__(self, table, tag, logpath, scalar, delays=None):
-        self.table, self.tag, self.logpath, self.scalar, self.delays = table, tag, logpath, scalar, delays
+    def __init__(self, table, tag, logpath, scalar, delays=None, dtype=None):
+        self.table, self.tag, self.logpath, self.scalar, self.delays, self.dtype = table, tag, logpath, scalar, delays, dtype
 
     def __call__(self, prog):
         with open(self.logpath, "a") as f:
@@ -73,6 +73,10 @@ class FF:
             import time
             time.sleep(self.delays[prog.g % len(self.delays)])  # makes workers finish in a chosen order
         comps = self.table[prog.g % len(self.table)]
+        if self.dtype:
+            # the fitness function answers with numpy scalars (error counts, distances, float32 losses); the values are the same numbers
+            import numpy as np
+            comps = [getattr(np, self.dtype)(c) for c in comps]
         return comps[0] if self.scalar else list(comps)
 
 
@@ -87,10 +91,10 @@ class WeightedSum:
 def mk_problem(spec, table, tag, logpath, delays=None):
     tbl = [[frac(c) for c in comps] for comps in table]
     if spec["kind"] == "so":
-        return SingleObjectiveProblem(FF(tbl, tag, logpath, True, delays), minimize=spec["min"])
+        return SingleObjectiveProblem(FF(tbl, tag, logpath, True, delays, spec.get("dtype")), minimize=spec["min"])
     agg = WeightedSum([frac(w) for w in spec["agg"]]) if spec.get("agg") is not None else None
     m = spec["min"]
-    return MultiObjectiveProblem(list(m) if isinstance(m, list) else bool(m), FF(tbl, tag, logpath, False, delays), aggregate_fitness=agg)
+    return MultiObjectiveProblem(list(m) if isinstance(m, list) else bool(m), FF(tbl, tag, logpath, False, delays, spec.get("dtype")), aggregate_fitness=agg)
 
 
 def read_log(path):
@@ -235,7 +239,10 @@ def case_c14(c, logpath):
     rec = Rec(ident)
     ev = ParallelEvaluator() if c.get("par") else SequentialEvaluator()
     cls = MultiObjectiveProgressTracker if c["mo"] else SingleObjectiveProgressTracker
-    tr = cls(problem, ev, recorders=[rec])
+    # how the evaluator (owner of the evaluation counter) comes about: passed explicitly, the tracker's own default, or the
+    # tracker the algorithm builds when none is passed
+    how = c.get("ev", "explicit")
+    tr = None if how == "algo_default" else cls(problem, recorders=[rec]) if how == "tracker_default" else cls(problem, ev, recorders=[rec])
     budget = LoggedBudget(mk_budget(c["budget"]), problem)
     rnd = NativeRandomSource(c.get("seed", 0))
     a = c["algo"]
@@ -247,6 +254,9 @@ def case_c14(c, logpath):
         alg = HC(problem, budget, rep, rnd, tr, number_of_mutations=c["m"])
     else:
         alg = GeneticProgramming(problem, budget, rep, rnd, tr, population_size=c["pop"], step=mk_step(c["step"]))
+    if tr is None:
+        tr = alg.tracker
+        tr.recorders.append(rec)
 
     def on_alarm(*_):
         raise Timeout()
